@@ -144,4 +144,93 @@ example : signedIntegerAst.Accepts "7".toList := by decide
 example : ¬ signedIntegerAst.Accepts "+-1".toList := by decide
 example : ¬ signedIntegerAst.Accepts "-".toList := by decide
 
+/-! ## pinned ASTs of the remaining Regex-based built-ins
+
+Each `…_pattern_ast` is a generated-fact obligation: the pattern string read from the live package parses to the
+AST written here.  Any edit of a built-in's pattern breaks the obligation at `lake build`. -/
+def signOpt : Re := opt (cls [.c '+', .c '-'])
+def expoPart : Re := seq (cls [.c 'e', .c 'E']) (seq signOpt (plus digit))
+def urealPart : Re := alt (seq (plus digit) (seq (lit '.') (star digit))) (seq (lit '.') (plus digit))
+def hx : Re := cls [.r '0' '9', .r 'a' 'f', .r 'A' 'F']
+def dd : Re := seq digit digit
+
+def realAst : Re := seq signOpt urealPart
+theorem real_pattern_ast : parse Gen.Patterns.real = some ⟨realAst, 0, []⟩ := by decide +kernel
+
+def sciRealAst : Re := seq signOpt (alt (seq (plus digit) expoPart) (seq urealPart (opt expoPart)))
+theorem sci_real_pattern_ast : parse Gen.Patterns.sci_real = some ⟨sciRealAst, 0, []⟩ := by decide +kernel
+
+def fnumberAst : Re := seqs [signOpt, plus digit, opt (lit '.'), star digit, opt expoPart]
+theorem fnumber_pattern_ast : parse Gen.Patterns.fnumber = some ⟨fnumberAst, 0, []⟩ := by decide +kernel
+
+def liti (c : Char) : Re := .set ⟨false, [.c c], true⟩
+def signOptI : Re := opt (.set ⟨false, [.c '+', .c '-'], true⟩)
+def ieeeFloatAst : Re :=
+  seq signOptI
+    (alt (seqs [plus digit, opt (liti '.'), star digit, opt (seqs [liti 'e', signOptI, plus digit])])
+      (alt (seqs [liti 'n', liti 'a', liti 'n'])
+        (seqs [liti 'i', liti 'n', liti 'f', opt (seqs [liti 'i', liti 'n', liti 'i', liti 't', liti 'y'])])))
+theorem ieee_float_pattern_ast : parse Gen.Patterns.ieee_float = some ⟨ieeeFloatAst, 0, []⟩ := by decide +kernel
+
+def identifierAst : Re :=
+  seq (cls [.r 'A' 'Z', .c '_', .r 'a' 'z', .c 'ª', .c 'µ', .c 'º', .r 'À' 'Ö', .r 'Ø' 'ö', .r 'ø' 'ÿ'])
+    (star (cls [.r '0' '9', .r 'A' 'Z', .c '_', .r 'a' 'z', .c 'ª', .c 'µ', .c '·', .c 'º', .r 'À' 'Ö', .r 'Ø' 'ö',
+      .r 'ø' 'ÿ']))
+theorem identifier_pattern_ast : parse Gen.Patterns.identifier = some ⟨identifierAst, 0, []⟩ := by decide +kernel
+
+def octetAst : Re :=
+  alt (seqs [lit '2', lit '5', cls [.r '0' '5']])
+    (alt (seqs [lit '2', cls [.r '0' '4'], cls [.r '0' '9']])
+      (seq (opt (lit '1')) (between 1 2 (cls [.r '0' '9']))))
+def ipv4Ast : Re := seq (grp 1 octetAst) (exactly 3 (grp 2 (seq (lit '.') (grp 3 octetAst))))
+theorem ipv4_address_pattern_ast : parse Gen.Patterns.ipv4_address = some ⟨ipv4Ast, 3, []⟩ := by decide +kernel
+
+def macAst : Re :=
+  seqs [exactly 2 hx, grp 1 (cls [.c ':', .c '.', .c '-']), exactly 2 hx, exactly 4 (seq (bref 1 false) (exactly 2 hx))]
+theorem mac_address_pattern_ast : parse Gen.Patterns.mac_address = some ⟨macAst, 1, []⟩ := by decide +kernel
+
+def isoDateAst : Re :=
+  seq (grp 1 (exactly 4 digit))
+    (opt (seqs [lit '-', grp 2 dd, opt (seq (lit '-') (grp 3 dd))]))
+theorem iso8601_date_pattern_ast :
+    parse Gen.Patterns.iso8601_date = some ⟨isoDateAst, 3, [("year", 1), ("month", 2), ("day", 3)]⟩ := by
+  decide +kernel
+
+def isoDatetimeAst : Re :=
+  seqs [grp 1 (exactly 4 digit), lit '-', grp 2 dd, lit '-', grp 3 dd, cls [.c 'T', .c ' '], grp 4 dd, lit ':',
+    grp 5 dd,
+    opt (grp 6 (seq (lit ':') (opt (grp 7 (seqs [digit, digit, opt (grp 8 (seq (lit '.') (star digit)))]))))),
+    opt (grp 9 (alt (lit 'Z') (seqs [cls [.c '+', .c '-'], digit, digit, opt (lit ':'), digit, digit])))]
+theorem iso8601_datetime_pattern_ast :
+    parse Gen.Patterns.iso8601_datetime = some ⟨isoDatetimeAst, 9,
+      [("year", 1), ("month", 2), ("day", 3), ("hour", 4), ("minute", 5), ("second", 7), ("tz", 9)]⟩ := by
+  decide +kernel
+
+def uuidAst : Re := seqs [exactly 8 hx, exactly 3 (grp 1 (seq (lit '-') (exactly 4 hx))), lit '-', exactly 12 hx]
+theorem uuid_pattern_ast : parse Gen.Patterns.uuid = some ⟨uuidAst, 1, []⟩ := by decide +kernel
+
+/-- `number = sci_real | real | signed_integer` (a MatchFirst of exactly these three patterns, in this order);
+    `fraction = signed_integer "/" signed_integer`; the quoted-string built-ins are built from the pinned bodies -/
+theorem number_leaves_fact : Gen.Patterns.number_leaves =
+    [("Regex", Gen.Patterns.sci_real, 0), ("Regex", Gen.Patterns.real, 0), ("Regex", Gen.Patterns.signed_integer, 0)] := by
+  decide +kernel
+theorem fraction_leaves_fact : Gen.Patterns.fraction_leaves =
+    [("Regex", Gen.Patterns.signed_integer, 0), ("Literal", "/", 0), ("Regex", Gen.Patterns.signed_integer, 0)] := by
+  decide +kernel
+theorem ipv6_leaves_fact : Gen.Patterns.ipv6_address_leaves =
+    [("Regex", "[0-9a-fA-F]{1,4}", 0), ("Literal", ":", 0), ("Literal", "::ffff:", 0),
+     ("Regex", Gen.Patterns.ipv4_address, 0), ("Literal", "::", 0)] := by
+  decide +kernel
+
+def quotedBodyAst (q : Char) : Re :=
+  seq (lit q) (star (alt (ncls [.c q, .c '\n', .c '\r', .c '\\'])
+    (alt (seq (lit q) (lit q)) (seq (lit '\\') (alt (ncls [.c 'x']) (seq (lit 'x') (plus hx)))))))
+theorem dbl_quoted_string_fact : Gen.Patterns.dbl_quoted_string_leaves.map (fun x => (x.1, (parse x.2.1).map (·.re))) =
+    [("Regex", some (quotedBodyAst '"')), ("Literal", some (lit '"'))] := by decide +kernel
+theorem sgl_quoted_string_fact : Gen.Patterns.sgl_quoted_string_leaves.map (fun x => (x.1, (parse x.2.1).map (·.re))) =
+    [("Regex", some (quotedBodyAst '\'')), ("Literal", some (lit '\''))] := by decide +kernel
+theorem quoted_string_fact : Gen.Patterns.quoted_string_leaves.map (fun x => (x.1, (parse x.2.1).map (·.re))) =
+    [("Regex", some (quotedBodyAst '"')), ("Literal", some (lit '"')),
+     ("Regex", some (quotedBodyAst '\'')), ("Literal", some (lit '\''))] := by decide +kernel
+
 end PP.C18
